@@ -1,7 +1,7 @@
 (* C13 — the buffered connection behaves as a lossless FIFO byte stream (reader spec). *)
 From Coq Require Import String.
 From Coq Require Import List Strings.Byte NArith Bool Arith.
-Require Import Bytes Show Rd RdProofs LinkBuf LinkBufProofs OutBuf OutBufProofs.
+Require Import Bytes Show Rd RdProofs LinkBuf LinkBufProofs LinkBufStable OutBuf OutBufProofs.
 Import ListNotations.
 
 (* `rd` is the reader specification every HTTP model is written against: a byte queue fed by a
@@ -66,6 +66,18 @@ Theorem C13_linkbuf_peek : forall i s, Inv s ->
   end.
 Proof. exact lb_peek_spec. Qed.
 Print Assumptions C13_linkbuf_peek.
+
+(* "A slice returned by a peek stays unchanged until the next release", at the level of the model: over EVERY
+   sequence of operations that contains no Release and no Read (which releases), the node list only grows at its
+   end and the bytes of every node are only extended - so node k, bytes [off, off+len), reads the same bytes.
+   (That the Go slices alias exactly this memory, and the mcache recycling behind Release, are outside the
+   model: oracle of c13.reader.) *)
+Theorem C13_peeked_bytes_stay_until_release : forall ops s c s',
+  Inv s -> Forall quiet ops -> lrun ops s = Some (c, s') ->
+  forall k n, nth_error (nodes s) k = Some n ->
+  exists n' ext, nth_error (nodes s') k = Some n' /\ ndata n' = ndata n ++ ext.
+Proof. intros ops s c s' I Q R. exact (quiet_ops_keep_nodes ops s c s' I Q R). Qed.
+Print Assumptions C13_peeked_bytes_stay_until_release.
 
 (* Len() is the number of buffered, unconsumed bytes in every reachable state: field inv_len of Inv *)
 Theorem C13_len_is_buffered_unconsumed : forall s, Inv s -> llen s = length (unread s).
